@@ -1090,7 +1090,9 @@ class XmlDocument(SubXmlBase):
 
         # parse input to set incoming data to related attributes.
         for c in elt:
-            if isinstance(c, etree._Comment):
+            if not isinstance(c.tag, string_types):
+                # comments, and processing instructions when the parser is
+                # told to keep them (remove_pis=False)
                 continue
 
             key = c.tag.split('}', 1)[-1]
